@@ -136,7 +136,7 @@ def parse_units(path):
                 elif k == "kind":
                     cur.kind = v
                 elif k == "subst":
-                    for kv in v.split(","):
+                    for kv in v.split(";" if ";" in v else ","):
                         kv = kv.strip()
                         if kv:
                             a, b = kv.split("=", 1)
